@@ -50,6 +50,7 @@ if __name__ == "__main__":
     bs, neg = branch_stats(SE, reg, pairs)
     print("fuzz branches:", bs)
     print("fuzz calls with negTake:", len(neg))
+    NEG_FUZZ = len(neg)
 
     # whole runs
     encs = {L.NAME: L for L in (SE, EL)}
@@ -61,8 +62,8 @@ if __name__ == "__main__":
             pairs[name].append(encs[name].encode(reg, before, res, after))
     from aqv import scen as scen_mod
     scs = scen_mod.gen_scenarios(11, NS)
-    # + a coarse custom sand with default evaporation parameters: reaches the stage-2 guard failure
-    # (ghost `negTake`, negative EsAct) in a whole run — see repro_soil_evaporation_negative_es.py
+    # + a coarse custom sand with default evaporation parameters: before repo fix 9c2fed8 it reached
+    # negative EsAct (ghost `negTake`) in a whole run — see repro_soil_evaporation_negative_es.py
     scs.append(dict(id="coarse_sand", start="1988/05/01", end="1989/09/30",
                     weather={"kind": "file", "name": "tunis_climate.txt"},
                     crop={"name": "Wheat", "planting": "11/15", "overrides": {}},
@@ -78,4 +79,6 @@ if __name__ == "__main__":
     bs, neg = branch_stats(SE, reg, pairs[SE.NAME])
     print("whole-run branches:", bs)
     print("whole-run calls with negTake:", len(neg))
+    NEG_WHOLE = len(neg)
     print([(t.scen["id"], t.n_steps, t.error) for t in traces])
+    assert NEG_FUZZ == 0 and NEG_WHOLE == 0, "negTake must not occur (Lean: soilEvap_negTake_false)"
